@@ -2,5 +2,6 @@ SPECIFICATION Spec
 CONSTANTS
   MaxTok = 3
   Mode = "nowiki"
+  Depth = 0
 INVARIANT GenInv
 CHECK_DEADLOCK FALSE
